@@ -247,6 +247,12 @@ EXTRA10 = {
 }
 for _pid, (_t, _n) in EXTRA10.items():
     EXTRA[_pid] = (EXTRA.get(_pid, ("", ""))[0] + _t, EXTRA.get(_pid, ("", ""))[1] + _n)
+EXTRA11 = {
+ "C01": (" The solve the code reaches on fine grids (129 and 401 nodes; thorough 65..513) carries the contract the bounds jobs assume: direct, or iterative with max(atol, rtol B) <= 1e-9 B + 1e-11 for all B >= 0.",
+         " Solve contract probed at the listed node counts only."),
+}
+for _pid, (_t, _n) in EXTRA11.items():
+    EXTRA[_pid] = (EXTRA.get(_pid, ("", ""))[0] + _t, EXTRA.get(_pid, ("", ""))[1] + _n)
 for _pid, (_t, _n) in EXTRA.items():
     CHECKS[_pid]["text"] += _t
     CHECKS[_pid]["note"] += _n
